@@ -114,6 +114,9 @@ def run(ctx):
     valid = "0123456789abcdef" * 9
     # the same characters as bytes / bytearray: never a hex STRING; and a mixed-case spelling
     nonstr = [f(valid[:L].encode()) for L in (2, 40, 64, 128) for f in (bytes, bytearray)] + [b"AB" * 32, b"\x00" * 32]
+    # containers of exactly the accepted lengths that are not strings (len() answers 40 / 64 / 128 for them too)
+    for L in (40, 64, 128):
+        nonstr += [[7] * L, list(valid[:L]), tuple(valid[:L]), {i: i for i in range(L)}, [valid[:2]] * L]
     values = strings(ctx) + [v for v in interesting_values()] + nonstr + ["A" + valid[1:64], valid[:39] + "F", "aB" * 64]
     for fn, n in list(PREDS.items()) + list(RAISERS.items()):
         kind = "pred" if fn in PREDS else "raise"
@@ -151,4 +154,22 @@ def run(ctx):
         return type(l) is list and all(grammar(x, 64) for x in l) and len(set(bytes.fromhex(x) for x in l)) == len(l)
     lcases = [{"w": wire.case("checkformat_list_of_hex_keys", l), "meta": {"kind": "raise", "fn": "checkformat_list_of_hex_keys", "want": okl(l)}} for l in lists]
     core.run_stream(ctx, core.Stream("key lists (duplicates, alternative spellings)", lcases, rel_exact, oracle))
+    # the text of common.py itself, as translated on this run (Gen/Source.v) and interpreted by PySrc.run_prog, against the implementation:
+    # validates the interpreter's account of the builtins (bytes.fromhex, str.isalnum/lower, len, isinstance, hasattr, ==, in, sorted,
+    # try/except) on the very inputs of the streams above; exact agreement of returned value / exception class is required
+    hexfns = ["is_hex_string", "checkformat_hex_string", "is_hex_signature", "is_hex_key", "checkformat_hex_key", "is_gpg_fingerprint",
+              "checkformat_gpg_fingerprint", "checkformat_string", "checkformat_byteslike", "checkformat_expiration_distance"]
+    sigfns = ["is_signature", "checkformat_signature", "is_gpg_signature", "checkformat_gpg_signature", "checkformat_any_signature"]
+    step = 1 if not ctx.quick else 3
+    svals = values[::step] + [v for v in interesting_values()] + nonstr + [list("ab" * 20), tuple("ab" * 20), [7] * 40, {i: i for i in range(40)}, "a" * 40, b"a" * 40]
+    scases = [{"w": wire.case("src_run", fn, v), "meta": {"fn": fn}} for fn in hexfns for v in svals]
+    evals = entry_cases() + [v for v in interesting_values()]
+    scases += [{"w": wire.case("src_run", fn, v), "meta": {"fn": fn}} for fn in sigfns + hexfns[:2] for v in evals]
+
+    def rel_src(c, io, mo):
+        if io != mo:
+            return "the interpreted source and the implementation differ on %s: impl %s, interpreter %s" % (c["meta"]["fn"], io[:80], mo[:80])
+        return None
+    core.run_stream(ctx, core.Stream("interpreted source (Gen/Source.v via PySrc.run_prog) vs implementation: 15 translated functions of common.py x the values above",
+                                     scases, rel_src, None, nontrivial=lambda c, i, m: m != "U"))
     ctx.assumptions = ["strings range over all of Unicode in the theorems; the correspondence enumerates the embeddings listed in the stream names"]
